@@ -88,6 +88,12 @@ func signSlot(msg []byte, s slot) sigDesc {
 		payload = []byte("some other bytes entirely")
 	}
 	d := sigDesc{signer: s.Signer, exact: s.Payload == "exact", twin: s.Twin, whole: true}
+	if strings.HasPrefix(s.Payload, "derived:") {
+		// a signature over a 32-byte value derived from the message that is not its Keccak-256 digest
+		dg := attest.DerivedDigest(strings.TrimPrefix(s.Payload, "derived:"), msg)
+		d.bytes, d.canonV = attest.SignDigest(dg, attest.K(s.Signer), attest.SigStyle{Twin: s.Twin, Legacy: s.V == "2728"}), true
+		return d
+	}
 	switch {
 	case s.V == "01":
 		d.bytes, d.canonV = attest.Sign(payload, attest.K(s.Signer), attest.SigStyle{Twin: s.Twin}), true
@@ -345,12 +351,19 @@ func genPlan(t *rapid.T, enabledKeys []int, thr int, label string) *plan {
 			case 1:
 				s.Signer = rapid.IntRange(0, 15).Draw(t, label+"/any") // possibly disabled / duplicate
 			case 2:
-				s.Payload = rapid.SampledFrom([]string{"bitflip", "prefix", "other"}).Draw(t, label+"/payload")
+				s.Payload = rapid.SampledFrom([]string{"bitflip", "prefix", "other", "derived:eip191", "derived:eip191msg", "derived:sha256", "derived:sha3", "derived:keccak2", "derived:keccakhex"}).Draw(t, label+"/payload")
 			case 3:
 				s.V = fmt.Sprintf("raw:%d", rapid.SampledFrom([]int{0, 1, 2, 3, 4, 26, 27, 28, 29, 255}).Draw(t, label+"/rawv"))
 			}
 		}
 		p.Slots = append(p.Slots, s)
+	}
+	if !honest && len(p.Slots) > 0 && rapid.IntRange(0, 24).Draw(t, label+"/allderived") == 0 {
+		// the whole quorum signs one and the same wrong digest (a signing back end that wraps or re-hashes)
+		kind := "derived:" + rapid.SampledFrom(attest.DerivedKinds).Draw(t, label+"/dkind")
+		for i := range p.Slots {
+			p.Slots[i].Payload = kind
+		}
 	}
 	if !honest {
 		switch rapid.IntRange(0, 9).Draw(t, label+"/arr") {
@@ -528,7 +541,7 @@ func c01prelude() []*c01case {
 	msg := hex.EncodeToString([]byte("prelude message"))
 	en := []attEntry{{0, 0}, {1, 1}, {2, 2}, {3, 5}}
 	ex := func(signer int, v string, twin bool) slot { return slot{Signer: signer, Payload: "exact", V: v, Twin: twin} }
-	return []*c01case{
+	out := []*c01case{
 		{Enabled: en, Threshold: 3, Msg: msg, Plan: &plan{Slots: []slot{ex(0, "01", false), ex(1, "2728", false), ex(2, "01", true)}, Arrange: "asc", Edit: "none"}},
 		{Enabled: en, Threshold: 3, Msg: msg, Plan: &plan{Slots: []slot{ex(0, "01", false), ex(1, "01", false), ex(2, "01", false)}, Arrange: "desc", Edit: "none"}},
 		// third signature by a key that was never enabled
@@ -542,6 +555,15 @@ func c01prelude() []*c01case {
 		{Enabled: en, Decoys: []string{"zz", attest.K(0).Spelling(3)}, Threshold: 4, Msg: msg, Plan: &plan{Slots: []slot{ex(0, "01", false), ex(1, "01", false), ex(2, "01", false), ex(3, "2728", true)}, Arrange: "asc", Edit: "none"}},
 		{Enabled: en, Threshold: 2, Msg: msg, RawAtt: hex.EncodeToString(make([]byte, 130))},
 	}
+	// enabled attesters, right order, right count - over a digest derived from the message that is not its Keccak-256
+	for i, kind := range attest.DerivedKinds {
+		dv := func(signer int) slot { return slot{Signer: signer, Payload: "derived:" + kind, V: []string{"01", "2728"}[i%2]} }
+		out = append(out,
+			&c01case{Enabled: en, Threshold: 3, Msg: msg, Plan: &plan{Slots: []slot{dv(0), dv(1), dv(2)}, Arrange: "asc", Edit: "none"}},
+			&c01case{Enabled: en, Threshold: 3, Msg: msg, Plan: &plan{Slots: []slot{ex(0, "01", false), ex(1, "01", false), dv(2)}, Arrange: "asc", Edit: "none"}},
+			&c01case{Enabled: en, Threshold: 1, Msg: hex.EncodeToString(make([]byte, 32)), Plan: &plan{Slots: []slot{dv(3)}, Arrange: "asc", Edit: "none"}})
+	}
+	return out
 }
 
 func RunC01(t *testing.T) {
@@ -587,7 +609,7 @@ func RunC01(t *testing.T) {
 		}
 	})
 	if !t.Failed() {
-		st.Healthy(t, "accepted", "rejected", "has-twin", "has-legacy-v", "dup:twin", "dup:same", "dup:respell", "edit:extra-sig", "edit:trunc", "edit:pad", "arrange:perm", "payload:bitflip", "raw-bytes")
+		st.Healthy(t, "accepted", "rejected", "has-twin", "has-legacy-v", "dup:twin", "dup:same", "dup:respell", "edit:extra-sig", "edit:trunc", "edit:pad", "arrange:perm", "payload:bitflip", "payload:derived:eip191", "payload:derived:sha256", "raw-bytes")
 	}
 }
 
